@@ -70,6 +70,10 @@ pub const CONTEXTS: &[(&str, &str)] = &[
     ("let*-binding-a-lambda", "(let* ((t 1) (h (lambda () (list t n)))) CALL)"),
     // three sequentially dependent bindings
     ("let*-3-dependent", "(let* ((t n) (t2 t) (t3 (- t2 t))) CALL)"),
+    // user-defined syntax-rules macros whose expansion puts the call in a tail position
+    ("user-macro-if", "(my-if #t CALL 0)"),
+    ("user-macro-body", "(my-unless #f 0 CALL)"),
+    ("user-macro-recursive", "(my-or #f #f CALL)"),
     ("apply", "APPLYCALL"),
     // apply with the first operand given individually (in front of the list)
     ("apply-leading-argument", "APPLYSPREAD"),
@@ -180,8 +184,12 @@ fn body(shape: &Shape, k: usize, ctxs: &[usize]) -> String {
     format!("(probe) (if (= n 0) acc {})", build(shape, k, ctxs, "(- n 1)"))
 }
 
+pub const USER_MACROS: &str = "(define-syntax my-if (syntax-rules () ((my-if c a b) (cond (c a) (else b)))))
+(define-syntax my-unless (syntax-rules () ((my-unless c e ...) (if c #f (begin e ...)))))
+(define-syntax my-or (syntax-rules () ((my-or) #f) ((my-or e) e) ((my-or e r ...) (let ((t e)) (if t t (my-or r ...))))))";
+
 pub fn program(shape: &Shape, ctxs: &[usize], n: u32) -> (Vec<String>, String) {
-    let mut defs = shape.defs.to_string();
+    let mut defs = format!("{}\n{}", USER_MACROS, shape.defs);
     for k in 0..shape.calls.len() {
         defs = defs.replace(&format!("BODY{}", k), &body(shape, k, ctxs));
     }
